@@ -1112,27 +1112,31 @@ auth_scenarios(long long seed)
 			sb[0] = suite_for(kx, 0x0301, 0);
 			run_scenario(&sc, NULL, 0, 0, &o, NULL, NULL, NULL, NULL, &cc, &sv);
 			expect_refused("client-max-version-below-server-min", &o, 2);
-			/* fallback: client retries at a lower version and says so; server supports more */
-			cfg_for(&sc, &cc, &sv, sb, &r, 0);
-			cc.vmin = 0x0301; cc.vmax = 0x0302; sv.vmin = 0x0301; sv.vmax = 0x0303;
-			sb[0] = suite_for(kx, 0x0301, 0); sb[1] = 0x5600; cc.nsuites = 2;
-			run_scenario(&sc, NULL, 0, 0, &o, NULL, NULL, NULL, NULL, &cc, &sv);
-			expect_refused("undue-fallback-signalled-by-scsv", &o, 2);
-			if (o.s_err != BR_ERR_SEND_FATAL_ALERT + 86 && o.s_err != 0) {
-				/* informational only: the property does not fix the error code */
-				vf_stat("fallback_other_error_code", 1);
-			} else if (o.s_err == BR_ERR_SEND_FATAL_ALERT + 86) {
-				vf_stat("fallback_alert_86", 1);
-			}
-			/* control: SCSV at the server's maximum version is not a fallback: must complete */
-			cfg_for(&sc, &cc, &sv, sb, &r, 0);
-			cc.vmin = 0x0301; cc.vmax = 0x0302; sv.vmin = 0x0301; sv.vmax = 0x0302;
-			sb[0] = suite_for(kx, 0x0301, 0); sb[1] = 0x5600; cc.nsuites = 2;
-			run_scenario(&sc, NULL, 0, 0, &o, NULL, NULL, NULL, NULL, &cc, &sv);
-			vf_stat("auth_controls", 1);
-			if (!o.c_ready || !o.s_ready || o.c_err || o.s_err) {
-				snprintf(tp_case, sizeof tp_case, "%s auth-case=control-scsv-at-max-version", scen_desc);
-				TP_VIOL("auth-control-failed", "handshake with TLS_FALLBACK_SCSV at the server's highest version did not complete");
+			/* fallback SCSV: every (client maximum, server range): the client retries at a lower version and says so.
+			   Refused (whatever the server's minimum) exactly when the server supports more than the client's maximum;
+			   a control otherwise: must complete */
+			{
+				unsigned cm, smin, smax;
+				for (cm = 0x0301; cm <= 0x0303; cm ++) for (smin = 0x0301; smin <= 0x0303; smin ++) for (smax = smin; smax <= 0x0303; smax ++) {
+					char nm[80];
+					if (cm < smin) continue;          /* no common version: covered above */
+					cfg_for(&sc, &cc, &sv, sb, &r, 0);
+					cc.vmin = 0x0301; cc.vmax = cm; sv.vmin = smin; sv.vmax = smax;
+					sb[0] = suite_for(kx, 0x0301, 0); sb[1] = 0x5600; cc.nsuites = 2;
+					run_scenario(&sc, NULL, 0, 0, &o, NULL, NULL, NULL, NULL, &cc, &sv);
+					snprintf(nm, sizeof nm, "fallback-scsv:client-max=%04x:server=%04x-%04x", cm, smin, smax);
+					if (cm < smax) {
+						expect_refused(nm, &o, 2);
+						if (o.s_err == BR_ERR_SEND_FATAL_ALERT + 86) vf_stat("fallback_alert_86", 1);
+						else vf_stat("fallback_other_error_code", 1);       /* informational: the property does not fix the code */
+					} else {
+						vf_stat("auth_controls", 1);
+						if (!o.c_ready || !o.s_ready || o.c_err || o.s_err) {
+							snprintf(tp_case, sizeof tp_case, "%s auth-case=control-%s", scen_desc, nm);
+							TP_VIOL("auth-control-failed", "handshake with TLS_FALLBACK_SCSV at the server's highest version did not complete");
+						}
+					}
+				}
 			}
 		}
 		vf_distinct("auth_scenario", "%s/%04x", kxn[kx], v);
